@@ -550,6 +550,9 @@ class Lib:
                             {'site': n.lineno, 'owner': 'FRESH'})
         g = n.generators[0]
         it = ex.ev(g.iter, st, fid)
+        if hasattr(it, 'abs_comp'):
+            # abstract sequence: the contract object maps the comprehension
+            return it.abs_comp(ex, st, n, g, fid)
         seq = self.iter_values(ex, st, it, n)
         nf = next(ex.fid)
         st.frames[nf] = {}
